@@ -713,6 +713,30 @@ pub struct ConvS {
 }
 proj_struct!(ConvS { a, b, c, d, ee, f, g });
 
+/// conversion functions whose path ends in `from` / `try_from` / `into`, from a type spelled like the field's own type
+/// (they are ordinary user functions, not the reflexive `From::from`)
+pub mod shout {
+    use monitor::log_call;
+    pub fn from(s: String) -> String {
+        log_call("shout_from", format!("{:?}", monitor::ToProj::to_proj(&s)), None);
+        s.to_uppercase()
+    }
+    pub fn into(x: u8) -> u8 {
+        log_call("inc_into", format!("{:?}", monitor::ToProj::to_proj(&x)), None);
+        x.wrapping_add(1)
+    }
+}
+#[derive(Deserr, Debug)]
+pub struct FromNamedFrom {
+    #[deserr(from(String) = shout::from)]
+    a: String,
+    #[deserr(from(u8) = shout::into)]
+    b: u8,
+    #[deserr(from(String) = self::shout::from, default)]
+    c: String,
+}
+proj_struct!(FromNamedFrom { a, b, c });
+
 #[derive(Deserr, Debug)]
 #[deserr(where_predicate = __Deserr_E: deserr::MergeWithError<Rec2>)]
 pub struct FieldErr {
@@ -1285,6 +1309,10 @@ pub fn defs() -> Defs {
         ],
     )));
     d.add(st(sdef(
+        "FromNamedFrom",
+        vec![f("a", Ty::Str).from("shout_from"), f("b", u(8)).from("inc_into"), f("c", Ty::Str).default(Proj::Str(String::new())).from("shout_from")],
+    )));
+    d.add(st(sdef(
         "FieldErr",
         vec![
             f("a", u(8)).err2(),
@@ -1545,6 +1573,7 @@ pub fn registry() -> Registry {
     r.all::<DenySkip>("DenySkip", named("DenySkip"), &["derive", "deny", "skip"]);
     r.all::<MissingCustom>("MissingCustom", named("MissingCustom"), &["derive", "custom-fn"]);
     r.all::<ConvS>("ConvS", named("ConvS"), &["derive", "conv"]);
+    r.all::<FromNamedFrom>("FromNamedFrom", named("FromNamedFrom"), &["derive", "conv", "default"]);
     r.rec::<FieldErr>("FieldErr", named("FieldErr"), &["derive", "conv", "err2"]);
     r.rec::<FixedErr>("FixedErr", named("FixedErr"), &["derive", "conv", "deny", "fixed-error"]);
     r.rec::<FixedErrEnum>("FixedErrEnum", named("FixedErrEnum"), &["derive", "conv", "enum", "validate", "fixed-error"]);
